@@ -1,7 +1,7 @@
 #!/bin/sh
-# usage: tools/confirm_seed.sh <property> <n>   (independent confirmation of a seeded change in a scratch worktree)
+# usage: tools/confirm_seed.sh <property> <n> [dir-prefix, default "seed": /tmp/<prefix>_<property>/<n>]   (independent confirmation of a seeded change in a scratch worktree)
 # checks: patch applies, tree builds, the unchanged test suite passes with it, the demo fails with it and passes without it.
-P="$1"; N="$2"; S=/tmp/seed_$P/$N; WT=/tmp/wtc_${P}_$N
+P="$1"; N="$2"; PREFIX="${3:-seed}"; S=/tmp/${PREFIX}_$P/$N; WT=/tmp/wtc_${PREFIX}_${P}_$N
 export GOFLAGS=-mod=mod GOPROXY=off GOSUMDB=off
 OUT=$S/confirm.txt; : > $OUT
 git -C /repo worktree add -q --detach $WT HEAD >/dev/null 2>&1 || { echo "worktree failed" >> $OUT; exit 1; }
